@@ -1181,3 +1181,65 @@ func c03R23(ic *IC, r *Report) {
 		r.Errorf("R03.23: only %d spellings of unsafe builtins found outside the constant declarations", n)
 	}
 }
+
+func init() {
+	ruleText["R03.24"] = "every constant declaration numbers its specifications from zero: in each case of the walks of gta and cfg (pre-order) that handles the constDecl kind before its specifications are visited, the scope's iota counter is assigned 0 by a direct statement of the case, and no call of the early compilation (Interpreter.cfg) follows it in the case - the counter is otherwise reset only by the last specification of a declaration that *succeeds*, so a failed declaration (or a failed early compilation) leaves its count to the next one"
+}
+
+// c03R24: D130 (round-7 report on C03, item 2; round-8 report on C11, E4).
+func c03R24(ic *IC, r *Report) {
+	info := ic.Info
+	iotaFld := ic.field("scope", "iota")
+	if iotaFld == nil {
+		r.Errorf("R03.24: field scope.iota not found")
+		return
+	}
+	n := 0
+	for _, fname := range []string{"Interpreter.gta", "Interpreter.cfg"} {
+		fi := ic.fn(r, fname)
+		if fi == nil {
+			continue
+		}
+		ast.Inspect(fi.Decl.Body, func(q ast.Node) bool {
+			cc, ok := q.(*ast.CaseClause)
+			if !ok {
+				return true
+			}
+			ls := kindLabels(ic, cc)
+			if len(ls) != 1 || ls[0] != "constDecl" {
+				return true
+			}
+			// the cases that run before the specifications are visited: those calling the early compilation
+			if len(callsIn(info, cc, false, "interp.Interpreter.cfg")) == 0 {
+				return true
+			}
+			n++
+			resetAt := -1
+			for i, st := range cc.Body {
+				if as, ok := st.(*ast.AssignStmt); ok && len(as.Lhs) == 1 && len(as.Rhs) == 1 {
+					if se, ok := unparen(as.Lhs[0]).(*ast.SelectorExpr); ok && selField(info, se) == iotaFld {
+						if l, ok := unparen(as.Rhs[0]).(*ast.BasicLit); ok && l.Value == "0" {
+							resetAt = i
+						}
+					}
+				}
+			}
+			ok = resetAt >= 0
+			why := "the case never assigns 0 to the counter by a direct statement"
+			if ok {
+				for _, st := range cc.Body[resetAt+1:] {
+					if len(callsIn(info, st, false, "interp.Interpreter.cfg")) > 0 {
+						ok = false
+						why = "the early compilation is called after the reset (" + ic.pos(st.Pos()) + ") and may leave the counter advanced"
+					}
+				}
+			}
+			r.Check(ok, "R03.24", fname+"/case:constDecl/specifications-numbered-from-zero", ic.pos(cc.Pos()), "the counter is reset by a direct statement of the case, after the early compilation",
+				"in the constDecl case of "+fname+" "+why+": iota keeps the count a failed declaration (or a failed early compilation of this one) has left - after `const ( a = iota; b = undefinedX; c )` is rejected, `const ( d = iota; e )` gives d = 3, e = 4")
+			return true
+		})
+	}
+	if n < 2 {
+		r.Errorf("R03.24: only %d constDecl cases running the early compilation found (gta and the pre-order pass of cfg expected)", n)
+	}
+}
